@@ -95,6 +95,18 @@ func TestC17(t *testing.T) {
 				for _, a := range c17Args {
 					combos = append(combos, []string{a.text, a.text, a.text}, []string{"1", a.text, "2"}, []string{a.text, "1", "2", "3"}, []string{"1", "2", "3", a.text})
 				}
+				if b == bn.BMin || b == bn.BMax {
+					// min/max take any number of arguments: every triple over one representative per kind plus
+					// the special numbers, as a list and as the elements of a single array
+					reps := []string{"nil", bn.KwTrue, "1", "(-0)", "0", "2.5", "(2 ** 1024)", "(-(2 ** 1024))", "((2 ** 1024) - (2 ** 1024))", "\"s\"", "[1, 2]", "{}", "f", "(7 & 3)"}
+					for _, a := range reps {
+						for _, d := range reps {
+							for _, e := range reps {
+								combos = append(combos, []string{a, d, e}, []string{"[" + a + ", " + d + ", " + e + "]"})
+							}
+						}
+					}
+				}
 				for _, args := range combos {
 					k++
 					if !c.Mine(k) {
